@@ -79,20 +79,26 @@ func mergeExistingSnapshot(ctx context.Context, endpoints []string, next metadat
 	if err != nil || len(existing.Topics) == 0 {
 		return next
 	}
-	seen := make(map[string]struct{}, len(next.Topics))
-	for _, topic := range next.Topics {
+	seen := make(map[string]int, len(next.Topics))
+	for i, topic := range next.Topics {
 		name := *topic.Topic
 		if name == "" {
 			continue
 		}
-		seen[name] = struct{}{}
+		seen[name] = i
 	}
 	for _, topic := range existing.Topics {
 		name := *topic.Topic
 		if name == "" || topic.ErrorCode != 0 {
 			continue
 		}
-		if _, ok := seen[name]; ok {
+		if i, ok := seen[name]; ok {
+			// A partition count never shrinks: partitions a broker added beyond
+			// the resource's count (CreatePartitions) stay in the snapshot.
+			if have := len(next.Topics[i].Partitions); len(topic.Partitions) > have {
+				grown := append([]protocol.MetadataPartition(nil), next.Topics[i].Partitions...)
+				next.Topics[i].Partitions = append(grown, topic.Partitions[have:]...)
+			}
 			continue
 		}
 		next.Topics = append(next.Topics, topic)
@@ -292,20 +298,26 @@ func mergeSnapshots(next, existing metadata.ClusterMetadata) metadata.ClusterMet
 	if len(existing.Topics) == 0 {
 		return next
 	}
-	seen := make(map[string]struct{}, len(next.Topics))
-	for _, topic := range next.Topics {
+	seen := make(map[string]int, len(next.Topics))
+	for i, topic := range next.Topics {
 		name := *topic.Topic
 		if name == "" {
 			continue
 		}
-		seen[name] = struct{}{}
+		seen[name] = i
 	}
 	for _, topic := range existing.Topics {
 		name := *topic.Topic
 		if name == "" || topic.ErrorCode != 0 {
 			continue
 		}
-		if _, ok := seen[name]; ok {
+		if i, ok := seen[name]; ok {
+			// A partition count never shrinks: partitions a broker added beyond
+			// the resource's count (CreatePartitions) stay in the snapshot.
+			if have := len(next.Topics[i].Partitions); len(topic.Partitions) > have {
+				grown := append([]protocol.MetadataPartition(nil), next.Topics[i].Partitions...)
+				next.Topics[i].Partitions = append(grown, topic.Partitions[have:]...)
+			}
 			continue
 		}
 		next.Topics = append(next.Topics, topic)
